@@ -169,11 +169,16 @@ def degenerate(rng, name, data, mode):
     return data
 
 
-def case_model(rng, tier, i, degen=False):
-    name = mm.MODELS[int(rng.integers(0, len(mm.MODELS)))]
+DEGEN_MODES = ['zero', 'repeat', 'rank1', 'big', 'small', 'mixedscale', 'fewframes']
+
+
+def case_model(rng, tier, i, degen=False, force_name=None, force_mode=None):
+    name = force_name or mm.MODELS[int(rng.integers(0, len(mm.MODELS)))]
     K = int(rng.integers(1, 5)) if name != 'cacgmm' else int(rng.integers(2, 5))
     D = int(rng.integers(2, 6))
     N = int(rng.integers(2 * K + 2, 25)) if not degen else int(rng.integers(1, 12))
+    if degen and force_mode in ('big', 'small', 'fewframes', 'mixedscale') and rng.random() < 0.6:
+        N = int(rng.integers(1, D + 1))          # fewer frames than channels: floored eigenvalues meet extreme scales
     if name in mm.INTEGRATION:
         lead = (int(rng.integers(1, 4)),)
     else:
@@ -184,7 +189,7 @@ def case_model(rng, tier, i, degen=False):
     data = mm.make_data(rng, name, K, D, N, lead, separation=float(rng.choice([0.5, 2.0, 8.0])))
     mode = None
     if degen:
-        mode = str(rng.choice(['zero', 'repeat', 'rank1', 'big', 'small', 'mixedscale', 'fewframes']))
+        mode = force_mode or str(rng.choice(DEGEN_MODES))
         data = degenerate(rng, name, data, mode)
     style = 'onehot' if (degen and rng.random() < 0.4 and N >= K) else ['positive', 'dirichlet'][int(rng.integers(0, 2))]
     init = mm.make_init(rng, K, N, lead, style)
@@ -384,8 +389,9 @@ def cases(rng, tier):
         out.append(case_direct(rng, tier, i))
     for i in range(40 if q else 350):
         out.append(case_model(rng, tier, i))
-    for i in range(25 if q else 250):
-        out.append(case_model(rng, tier, i, degen=True))
+    # degenerate stream, stratified: every model meets every degeneracy in every run
+    for i in range(49 if q else 490):
+        out.append(case_model(rng, tier, i, degen=True, force_name=mm.MODELS[i % 7], force_mode=DEGEN_MODES[(i // 7) % 7]))
     for i in range(20 if q else 150):
         out.append(case_init(rng, tier, i))
     for i in range(1 if q else 4):
